@@ -360,7 +360,7 @@ mod serialization {
             let is_ordered = de.read_leb128_u64()?;
             let l = de.read_leb128_u64()?;
             let attributes = (0..l).map(|_| {
-                let name = String::from_utf8(de.read_vec()?)
+                let name = String::from_utf8(crate::bytes::read_vec(de)?)
                     .map_err(|e| Error::ConversionFailed(e.to_string()))?;
                 let attribute = de.read::<Attribute>()?;
                 Ok::<_, Error>((name, attribute))
